@@ -238,6 +238,36 @@ class Effects:
             self._trans[key] = uniq
         return uniq
 
+    def reaches(self, ci, fn, targets, depth=8, _seen=None):
+        """does fn (transitively, over resolved callees) call a function whose qualified name is in `targets`
+        (e.g. {"System.j_update"})?  Returns the call chain or None."""
+        _seen = _seen if _seen is not None else set()
+        if id(fn) in _seen or depth < 0:
+            return None
+        _seen.add(id(fn))
+        qual = "%s.%s" % (getattr(ci, "name", getattr(ci, "path", ci)), fn.name)
+        for c in walk_noscope(fn):
+            if not isinstance(c, ast.Call):
+                continue
+            for cci, cfn in self.callees(ci, fn, c):
+                q2 = "%s.%s" % (getattr(cci, "name", getattr(cci, "path", cci)), cfn.name)
+                if q2 in targets:
+                    return (qual, q2)
+                r = self.reaches(cci, cfn, targets, depth - 1, _seen)
+                if r:
+                    return (qual,) + r
+        return None
+
+    def call_reaches(self, ci, fn, call, targets, depth=8):
+        for cci, cfn in self.callees(ci, fn, call):
+            q2 = "%s.%s" % (getattr(cci, "name", getattr(cci, "path", cci)), cfn.name)
+            if q2 in targets:
+                return (q2,)
+            r = self.reaches(cci, cfn, targets, depth)
+            if r:
+                return r
+        return None
+
     def call_writes(self, ci, fn, call, depth=8):
         """content writes reachable through one call site."""
         out = []
